@@ -350,6 +350,21 @@ Definition url_end (n : Z) (l : list Z) : option (ttype * Z) :=
   if (0 <? b) || eofb l' then Some (TURL, n + w + b)
   else r <- badurl_loop l' 0 ;; Some (TBadURL, n + w + r).
 
+(* consumeIdentlike after "url(" and the leading whitespace: a quoted or unquoted url; n bytes so far *)
+Definition url_arg (n : Z) (l : list Z) : option (ttype * Z) :=
+  c <- peekz l 0 ;;
+  if (c =? 34) || (c =? 39) then
+    s <- consume_string l ;;
+    if tt_eqb (fst s) TBadString then
+      r <- badurl_loop (skipz (snd s) l) 0 ;; Some (TBadURL, n + snd s + r)
+    else url_end (n + snd s) (skipz (snd s) l)
+  else
+    u <- url_loop l 0 ;;
+    if fst u then url_end (n + snd u) (skipz (snd u) l) else
+    ws <- consume_whitespace (skipz (snd u) l) ;;            (* "... && !l.consumeWhitespace()" *)
+    if 0 <? ws then url_end (n + snd u + 1) (skipz (snd u + 1) l)
+    else r <- badurl_loop (skipz (snd u) l) 0 ;; Some (TBadURL, n + snd u + r).
+
 Definition consume_identlike (l : list Z) : option (ttype * Z) :=
   n <- consume_ident_token l ;;
   if n =? 0 then Some (TError, 0) else
@@ -357,21 +372,9 @@ Definition consume_identlike (l : list Z) : option (ttype * Z) :=
   c <- peekz l1 0 ;;
   if negb (c =? 40) then Some (TIdent, n) else
   if negb (is_url_name (firstz n l)) then Some (TFunction, n + 1) else
-  let l2 := tl l1 in
+  let l2 := tl l1 in                                          (* Move(1) over '(' *)
   w <- scan_while is_ws l2 ;;
-  let l3 := skipz w l2 in
-  c3 <- peekz l3 0 ;;
-  if (c3 =? 34) || (c3 =? 39) then
-    s <- consume_string l3 ;;
-    if tt_eqb (fst s) TBadString then
-      r <- badurl_loop (skipz (snd s) l3) 0 ;; Some (TBadURL, n + 1 + w + snd s + r)
-    else url_end (n + 1 + w + snd s) (skipz (snd s) l3)
-  else
-    u <- url_loop l3 0 ;;
-    if fst u then url_end (n + 1 + w + snd u) (skipz (snd u) l3) else
-    ws <- consume_whitespace (skipz (snd u) l3) ;;
-    if 0 <? ws then url_end (n + 1 + w + snd u + 1) (skipz (snd u + 1) l3)
-    else r <- badurl_loop (skipz (snd u) l3) 0 ;; Some (TBadURL, n + 1 + w + snd u + r).
+  url_arg (n + 1 + w) (skipz w l2).
 
 (* --- Next --------------------------------------------------------------------------------- *)
 Definition or_delim (r : ttype * Z) : ttype * Z := if is_err (fst r) then (TDelim, 1) else r.
